@@ -51,7 +51,7 @@ fn kf(pos: f32, a: Option<f32>, k: Option<i32>, d: Option<f64>, e: Option<u8>) -
     Kf { pos, a, k, d, easing: e }
 }
 
-/// 17 shapes; `variant` 0 uses Linear/custom polynomial easings, 1 uses built-in Bezier easings
+/// 19 shapes; `variant` 0 uses Linear/custom polynomial easings, 1 uses built-in Bezier easings
 /// (Ease / InOutCubic / OutBack) in the same places.
 pub fn pool(variant: u8) -> Vec<(&'static str, Vec<TlSpec>)> {
     if variant == 2 {
@@ -112,6 +112,15 @@ pub fn pool(variant: u8) -> Vec<(&'static str, Vec<TlSpec>)> {
             vec![
                 one(vec![kf(0.0, Some(-4.0), None, None, None), kf(1.0, Some(12.0), None, None, None)], e(0), t(0.25, 0.0, Rep::Times(2), false)),
                 one(vec![kf(0.0, None, Some(0), None, None), kf(1.0, None, Some(400), None, None)], e(1), t(2.0, 0.0, Rep::None, false)),
+            ],
+        ),
+        // timelines without any keyframe still have a duration: the state counts as animated until it is over
+        ("keyframe-less-2s", vec![one(vec![], e(0), t(2.0, 0.0, Rep::None, false))]),
+        (
+            "merged-finite+keyframe-less-longer",
+            vec![
+                one(vec![kf(0.0, Some(1.0), Some(1), None, None), kf(1.0, Some(9.0), Some(9), None, None)], e(0), t(0.5, 0.0, Rep::None, false)),
+                one(vec![], e(0), t(1.0, 0.25, Rep::Times(1), false)),
             ],
         ),
         // negative delay: the animation is already half-way through when the state is entered (entering it
@@ -212,11 +221,16 @@ impl Config {
     }
 
     pub fn build(&self, init_state: S4) -> Anim {
-        let b = StateAnimatorBuilder::<S4, PTimeline>::new()
-            .from_state(init_state)
-            .from_values(initial_values())
-            .on(S4::X, self.merged[0].clone())
-            .on(S4::Y, self.merged[1].clone());
+        // all three `TimelineOrBuilder` entry points: a MergedTimeline, a built timeline, an unbuilt configuration
+        // (single-component shapes alternate between the latter two by easing variant)
+        let mut b = StateAnimatorBuilder::<S4, PTimeline>::new().from_state(init_state).from_values(initial_values());
+        for (i, st) in [S4::X, S4::Y].into_iter().enumerate() {
+            b = if self.specs[i].len() == 1 {
+                if (self.variant as usize + i) % 2 == 0 { b.on(st, self.specs[i][0].builder()) } else { b.on(st, self.specs[i][0].build()) }
+            } else {
+                b.on(st, self.merged[i].clone())
+            };
+        }
         match &self.zmerged {
             Some(z) => b.on(S4::U2, z.clone()).build(),
             None => b.build(),
@@ -558,6 +572,14 @@ pub fn check_history(cfg: &Config, init: S4, h: &[Op], prop: Prop, rank: u64, ac
             if cfg.shape(model.cur).is_none() && post.paused != model.paused {
                 acc.sink.add("pause-record", rank, || mk(format!("remembered animation {:?}, reference {:?}", post.paused, model.paused)));
             }
+            // self-consistency (exact, model-free): the values shown are the current state's timeline evaluated at
+            // the animator's own clock, written over the values held before the operation
+            {
+                let mut p = pre.values.clone();
+                if real.verif_probe(&post.state, post.time.as_secs_f32(), &mut p) && p.bits() != post.values.bits() {
+                    acc.sink.add("values:not-the-timeline-at-the-clock", rank, || mk(format!("current_values {:?}, but the state's timeline at the time in state {:?} gives {:?}", post.values, post.time, p)));
+                }
+            }
             match model.expect(cfg) {
                 None => {
                     if post.values.bits() != pre.values.bits() {
@@ -740,6 +762,44 @@ fn c06_tiny_steps(acc: &mut Acc) {
     }
 }
 
+/// C05 on the non-dyadic pool: only the model-free clauses - after the last operation of the history the values
+/// are bit-identical to the current state's timeline evaluated at the animator's own clock (written over the
+/// values held before the operation), un-animated states change nothing, and the clock is the exact sum of the
+/// steps since the state was entered or resumed.
+fn check_selfconsistency(cfg: &Config, init: S4, h: &[Op], rank: u64, acc: &mut Acc) {
+    acc.histories += 1;
+    let mut real = cfg.build(init);
+    let n = h.len();
+    for op in &h[..n - 1] {
+        apply(&mut real, op);
+        acc.ops += 1;
+    }
+    let pre = observe(&real);
+    apply(&mut real, &h[n - 1]);
+    acc.ops += 1;
+    acc.checks += 1;
+    let post = observe(&real);
+    let mk = |what: String| {
+        let mut j = hist_json(cfg, init, h);
+        j["unit_test"] = json!(animator_unit_test(cfg, init, h, Prop::C05, &[format!("// reported: {}", what.replace('\n', " "))]));
+        (format!("{what} | config X={} Y={} (non-dyadic pool) | history: {}", cfg.names[0], cfg.names[1], hname(h)), j)
+    };
+    let mut p = pre.values.clone();
+    if real.verif_probe(&post.state, post.time.as_secs_f32(), &mut p) {
+        acc.nontrivial += 1;
+        if p.bits() != post.values.bits() {
+            acc.sink.add("values:not-the-timeline-at-the-clock", rank, || mk(format!("current_values {:?}, but the state's timeline at the time in state {:?} gives {:?}", post.values, post.time, p)));
+        }
+    } else if post.values.bits() != pre.values.bits() {
+        acc.sink.add("values:unanimated-state-changed-values", rank, || mk(format!("values changed in a state without timeline: {:?} -> {:?}", pre.values, post.values)));
+    }
+    if let Op::Adv(d) = h[n - 1] {
+        if post.time != pre.time + Duration::from_secs_f32(d) {
+            acc.sink.add("time-in-state", rank, || mk(format!("time in state {:?} after advance({d}) from {:?}", post.time, pre.time)));
+        }
+    }
+}
+
 /// Shapes with timings that are NOT exactly representable and a delay (variant 2 of `pool`): used by the C04
 /// companion only, whose clause (set_state never changes current_values) needs no reference model.
 fn nondyadic_pool() -> Vec<(&'static str, Vec<TlSpec>)> {
@@ -755,11 +815,11 @@ fn nondyadic_pool() -> Vec<(&'static str, Vec<TlSpec>)> {
     ]
 }
 
-/// C04 companion: non-dyadic delayed shapes, advance amounts that land exactly on (and one ulp around) the
+/// C04 / C05 companion: non-dyadic delayed shapes, advance amounts that land exactly on (and one ulp around) the
 /// reported total duration - where `is_ended` (clock >= delay + cycle x n, rounded once) and the time map
 /// (clock - delay > cycle x n) may disagree by an ulp - then every history of set_state / advance up to
-/// depth 5. Oracle: the C04 clause only (bit-exact, model-free).
-fn c04_nondyadic(thorough: bool, acc: &mut Acc) {
+/// depth 5. Oracle: for C04 its clause (bit-exact, model-free); for C05 `check_selfconsistency`.
+fn nondyadic_companion(prop: Prop, thorough: bool, acc: &mut Acc) {
     let np = nondyadic_pool().len();
     let mut cfgs: Vec<(usize, usize)> = vec![];
     for i in 0..np - 1 {
@@ -788,12 +848,17 @@ fn c04_nondyadic(thorough: bool, acc: &mut Acc) {
             ops.extend([Op::Set(S4::X), Op::Set(S4::Y), Op::Set(S4::U1), Op::Set(S4::U2)]);
             // all histories of length 1..=depth that end in a set_state (the clause is about set_state)
             let mut h: Vec<usize> = vec![];
-            fn rec(cfg: &Config, ops: &[Op], h: &mut Vec<usize>, depth: usize, rank0: u64, acc: &mut Acc) {
+            fn rec(cfg: &Config, ops: &[Op], h: &mut Vec<usize>, depth: usize, rank0: u64, prop: Prop, acc: &mut Acc) {
                 if !h.is_empty() {
-                    if let Op::Set(_) = ops[*h.last().unwrap()] {
-                        let hist: Vec<Op> = h.iter().map(|&i| ops[i]).collect();
-                        let code = h.iter().fold(0u64, |c, &i| c * 16 + i as u64 + 1);
-                        check_history(cfg, S4::X, &hist, Prop::C04, rank0 | (h.len() as u64) << 40 | code, acc);
+                    let hist: Vec<Op> = h.iter().map(|&i| ops[i]).collect();
+                    let code = h.iter().fold(0u64, |c, &i| c * 16 + i as u64 + 1);
+                    if prop == Prop::C04 {
+                        // the clause is about set_state
+                        if let Op::Set(_) = ops[*h.last().unwrap()] {
+                            check_history(cfg, S4::X, &hist, Prop::C04, rank0 | (h.len() as u64) << 40 | code, acc);
+                        }
+                    } else {
+                        check_selfconsistency(cfg, S4::X, &hist, rank0 | (h.len() as u64) << 40 | code, acc);
                     }
                 }
                 if h.len() == depth {
@@ -801,11 +866,11 @@ fn c04_nondyadic(thorough: bool, acc: &mut Acc) {
                 }
                 for i in 0..ops.len() {
                     h.push(i);
-                    rec(cfg, ops, h, depth, rank0, acc);
+                    rec(cfg, ops, h, depth, rank0, prop, acc);
                     h.pop();
                 }
             }
-            rec(&cfg, &ops, &mut h, depth, (3u64 << 60) | (ci as u64) << 52, acc);
+            rec(&cfg, &ops, &mut h, depth, (3u64 << 60) | (ci as u64) << 52, prop, acc);
         },
         merge,
     );
@@ -1146,8 +1211,8 @@ pub fn run(run: Run, prop: Prop) -> ! {
     if prop == Prop::C06 {
         c06_tiny_steps(&mut acc);
     }
-    if prop == Prop::C04 {
-        c04_nondyadic(thorough, &mut acc);
+    if prop == Prop::C04 || prop == Prop::C05 {
+        nondyadic_companion(prop, thorough, &mut acc);
     }
     let id = format!("{prop:?}");
     let mut cov = Map::new();
@@ -1156,7 +1221,7 @@ pub fn run(run: Run, prop: Prop) -> ! {
     cov.insert("traces_validated_against_impl".into(), json!(acc.histories));
     cov.insert("evaluations".into(), json!(acc.checks));
     cov.insert("distinct_nontrivial".into(), json!(acc.nontrivial));
-    cov.insert("rule".into(), json!(format!("{} animator configurations (X and Y timelines from a pool of 17 shapes: finite, to-only, mid-keyframe-only, delayed, Times 1, reversing, infinite, infinite-reversing-delayed, merged disjoint finite+infinite, merged overlapping, partial, empty merged list, infinite with delay = cycle, delayed Times 2, merged endless + delayed Times 1 reversing with one cycle length, merged short Times 2 + long non-repeating, negative delay (not in C04 runs); two un-animated states (in every 4th configuration - thorough: an extra copy of every configuration - U2 is a third animated state, so A -> B -> C -> A histories occur); Linear/polynomial or built-in Bezier easings; non-default initial values; initial state X or U1) x ALL histories of length 1..={} over the alphabet [{}] (a state is the history: the real animator is rebuilt and replayed; clauses are evaluated on the last operation of each history, so every operation of every history is checked once) + deviation-bounded pass: default advance(1/4), all histories of length <= {} with <= {} deviations + de-duplicating breadth-first pass keyed on the complete mutable state (counts under bfs_pass; a capped level is reported, everything below the cap depth is complete). {}", cfgs.len(), depth, ops.iter().map(|o| o.name()).collect::<Vec<_>>().join(", "), dev_len, dev_k, match prop {
+    cov.insert("rule".into(), json!(format!("{} animator configurations (X and Y timelines from a pool of 19 shapes: finite, to-only, mid-keyframe-only, delayed, Times 1, reversing, infinite, infinite-reversing-delayed, merged disjoint finite+infinite, merged overlapping, partial, empty merged list, infinite with delay = cycle, delayed Times 2, merged endless + delayed Times 1 reversing with one cycle length, merged short Times 2 + long non-repeating, keyframe-less 2 s, merged finite + longer keyframe-less, negative delay (not in C04 runs); two un-animated states (in every 4th configuration - thorough: an extra copy of every configuration - U2 is a third animated state, so A -> B -> C -> A histories occur); Linear/polynomial or built-in Bezier easings; non-default initial values; initial state X or U1) x ALL histories of length 1..={} over the alphabet [{}] (a state is the history: the real animator is rebuilt and replayed; clauses are evaluated on the last operation of each history, so every operation of every history is checked once) + deviation-bounded pass: default advance(1/4), all histories of length <= {} with <= {} deviations + de-duplicating breadth-first pass keyed on the complete mutable state (counts under bfs_pass; a capped level is reported, everything below the cap depth is complete). {}", cfgs.len(), depth, ops.iter().map(|o| o.name()).collect::<Vec<_>>().join(", "), dev_len, dev_k, match prop {
         Prop::C04 => "Oracle: current_values bit-identical before/after every set_state; same-state set_state leaves time, pause record and is_ended unchanged. non-trivial = set_state calls that change the state",
         Prop::C05 => "Oracle: RefAnimator stepped alongside (current_state, time in state via hook, live pause record via hook, values = state's merged timeline started from the values observed at entry, evaluated at the time in state; un-animated fields bit-identical). non-trivial = operations after which the current state animates at least one property",
         Prop::C06 => "Companion: every sequence of 2..5 non-representable steps (0.1,0.2,0.3,1/3,0.7) vs one advance of their f32 sum, values within float rounding (1e-3 of the value scale; sequences ending within 2e-5 s of a reference discontinuity skipped). Oracle: the history and its normal form (consecutive advances merged, zero advances and same-state changes dropped) end with bit-identical values, state and is_ended; advance(0) is a no-op. non-trivial = histories that differ from their normal form",
